@@ -1,7 +1,10 @@
 ----------------------------- MODULE MC_Mismatch -----------------------------
-(* C03: emit the mismatch universe of SyltMismatch (mode emit) and validate the recorded compile
-   results of the real compiler against the specification's expectation (mode validate). *)
-EXTENDS SyltMismatch, Json, IOUtils
+(* C03: emit the mismatch universe of SyltMismatch (table MM x context chains) and of SyltArrival (cores x
+   arrival forms x context chains) (mode emit) and validate the recorded compile results of the real compiler
+   against the specification's expectation (mode validate).
+   A case id is <<m, path>>: m = <<0, index into MM, 0, 0>> for a table entry, <<core, form 1, form 2, layout>>
+   for a derived mismatch. *)
+EXTENDS SyltArrival, Json, IOUtils
 
 VARIABLES k, pc
 vars == <<k, pc>>
@@ -9,8 +12,23 @@ vars == <<k, pc>>
 Mode == IOEnv.MODE                                   \* "emit" | "validate"
 D == IF "DEPTH" \in DOMAIN IOEnv THEN atoi(IOEnv.DEPTH) ELSE 2
 Complete == IF "COMPLETE" \in DOMAIN IOEnv THEN IOEnv.COMPLETE = "1" ELSE TRUE
+Full == IF "FULL" \in DOMAIN IOEnv THEN IOEnv.FULL = "1" ELSE FALSE        \* arrival: all chains of length <= 2
+Pairs == IF "PAIRS" \in DOMAIN IOEnv THEN IOEnv.PAIRS = "1" ELSE FALSE     \* arrival: every ordered pair of forms
+Seed == IF "SEED" \in DOMAIN IOEnv THEN atoi(IOEnv.SEED) % 1000 ELSE 1
+Mod == IF "MOD" \in DOMAIN IOEnv THEN atoi(IOEnv.MOD) ELSE 59
 
-Ids == CaseIds(D)
+\* big universes are emitted, replayed and validated in NSlice slices (slice = a hash of the case id)
+NSlice == IF "NSLICE" \in DOMAIN IOEnv THEN atoi(IOEnv.NSLICE) ELSE 1
+Slice == IF "SLICE" \in DOMAIN IOEnv THEN atoi(IOEnv.SLICE) ELSE 0
+SliceOf(id) == LET m == id[1]
+                   p == id[2] IN
+               (m[1] * 37 + m[2] * 11 + m[3] * 5 + m[4] + CtxNo(p[1]) * 53 + (IF Len(p) > 1 THEN CtxNo(p[2]) * 17 ELSE 0)) % NSlice
+InSlice(S) == IF NSlice = 1 THEN S ELSE {id \in S : SliceOf(id) = Slice}
+
+TableIds == InSlice({<<<<0, id[1], 0, 0>>, id[2]>> : id \in CaseIds(D)})
+Keys == AKeys(Pairs)
+ArrIds == InSlice(AIds(Full, Pairs, Seed, Mod))
+Ids == TableIds \cup ArrIds
 
 \* ---- spec-level sanity of the universe (a failing ASSUME is a wrong specification: tool error)
 ASSUME KindsDistinct
@@ -18,29 +36,48 @@ ASSUME RulesKnown /\ AllRulesUsed /\ TypesKnown
 ASSUME PlantedDiffers
 ASSUME AllDefinite /\ SomeDecidable
 ASSUME ContextsUsed
-ASSUME Mode = "emit" => CellsInhabited(Ids)
-ASSUME Mode = "emit" => ProgramsDiffer(Ids)
+ASSUME CoreKindsDistinct /\ CoreShape /\ OldCoresInTable /\ FormsDistinct
+ASSUME CoresDefinite /\ CoresDiffer
+ASSUME ArrivalSound
+ASSUME (Mode = "emit" /\ Slice = 0) => CellsInhabited(CaseIds(D))
+ASSUME (Mode = "emit" /\ Slice = 0) => ProgramsDiffer(CaseIds(D))
+ASSUME (Mode = "emit" /\ Slice = 0) => CellsMet(Pairs) /\ KeysPlaced(Keys, Full, Seed, Mod)
 ASSUME Mode = "emit" => PrintT(<<"PRELUDE", ToJson(Prelude)>>)
-ASSUME Mode = "emit" => PrintT(<<"UNIVERSE", ToJson([cases |-> Cardinality(Ids), kinds |-> NM, depth |-> D,
-                                                      contexts |-> Cardinality(Contexts)])>>)
+ASSUME Mode = "emit" => PrintT(<<"UNIVERSE", ToJson([cases |-> Cardinality(Ids), table_cases |-> Cardinality(TableIds),
+                                                      arrival_cases |-> Cardinality(ArrIds), kinds |-> NM, depth |-> D,
+                                                      contexts |-> Cardinality(Contexts), cores |-> NC, forms |-> NF,
+                                                      derived |-> Cardinality(Keys), nslice |-> NSlice, slice |-> Slice,
+                                                      form_names |-> [i \in 1..NF |-> FName(Forms[i])],
+                                                      core_kinds |-> [i \in 1..NC |-> Cores[i].kind]])>>)
 
 Rec == IF Mode = "validate" THEN ndJsonDeserialize(IOEnv.TRACE) ELSE <<>>
-KindIdx(kind) == CHOOSE i \in 1..NM : MM[i].kind = kind
-RecId(j) == <<KindIdx(Rec[j].id.kind), Rec[j].id.path>>
+RecId(j) == <<Rec[j].id.m, Rec[j].id.path>>
 RecIds == {RecId(j) : j \in 1..Len(Rec)}
+KindOf(m) == IF m[1] = 0 THEN MM[m[2]].kind ELSE AKind(m)
 
 Init == /\ pc = "start"
         /\ IF Mode = "emit" THEN k \in Ids
-           ELSE /\ Assert(\A j \in 1..Len(Rec) : Rec[j].id.kind \in Kinds, "a record names an unknown mismatch kind")
-                /\ Assert(RecIds \subseteq Ids, "a record is not a case of the specification's universe")
+           ELSE /\ Assert(RecIds \subseteq Ids, "a record is not a case of the specification's universe")
+                /\ Assert(\A j \in 1..Len(Rec) : Rec[j].id.kind = KindOf(Rec[j].id.m), "a record names another mismatch kind than its key")
                 /\ Assert(Complete => Ids \subseteq RecIds, "the records do not cover the specification's universe")
                 /\ k \in 1..Len(Rec)
 
+IdRec(id) ==
+  LET m == id[1] IN
+  IF m[1] = 0 THEN
+    LET t == MM[m[2]] IN
+    [kind |-> t.kind, m |-> m, path |-> id[2], depth |-> Len(id[2]), rule |-> t.rule, sort |-> t.sort, ty |-> t.ty,
+     core |-> t.kind, forms |-> <<>>]
+  ELSE
+    LET c == Cores[m[1]] IN
+    [kind |-> AKind(m), m |-> m, path |-> id[2], depth |-> Len(id[2]), rule |-> c.rule, sort |-> c.sort, ty |-> c.ty,
+     core |-> c.kind,
+     forms |-> IF c.n = 1 THEN <<FName(Forms[m[2]])>> ELSE <<FName(Forms[m[2]]), FName(Forms[m[3]])>>]
+Base(id) == IF id[1][1] = 0 THEN BaseProgram(<<id[1][2], id[2]>>) ELSE AProgram(id[1], id[2], FALSE)
+Planted(id) == IF id[1][1] = 0 THEN PlantedProgram(<<id[1][2], id[2]>>) ELSE AProgram(id[1], id[2], TRUE)
+
 Emit == /\ Mode = "emit" /\ pc = "start" /\ pc' = "done" /\ k' = k
-        /\ LET m == MM[k[1]] IN
-           PrintT(<<"REPLAY", ToJson([id |-> [kind |-> m.kind, path |-> k[2], depth |-> Len(k[2]), rule |-> m.rule,
-                                              sort |-> m.sort, ty |-> m.ty],
-                                      base |-> BaseProgram(k), planted |-> PlantedProgram(k)])>>)
+        /\ PrintT(<<"REPLAY", ToJson([id |-> IdRec(k), base |-> Base(k), planted |-> Planted(k)])>>)
 
 Validate == /\ Mode = "validate" /\ pc = "start" /\ pc' = "done" /\ k' = k
             /\ LET v == Verdict(Rec[k]) IN
